@@ -2071,6 +2071,10 @@ func runCase(raw json.RawMessage) interface{} {
 			o = runBridgeStall(c)
 		case "bridge_startrace":
 			o = runBridgeStartRace(c)
+		case "res_mgr":
+			o = runResMgr(c)
+		case "session_overlap":
+			o = runSessionOverlap(c)
 		case "stream_queue":
 			o = runStreamQueue(c)
 		case "fault_close":
